@@ -111,8 +111,31 @@ def extra():
             SchemaInfo(Schema({"nodes": {
                 "doc": {"content": "(X|Z)*"}, "X": {"content": "text?"}, "Z": {"content": "text*"}, "text": {},
             }}), "optional-text-local"),
+            *_context_flag_schemas(),
         ]
     return _EXTRA
+
+
+def _context_flag_schemas():
+    """the list schema with the two one-sided `defining` flags that only `Transform.replace_range` reads
+    (`definingAsContext`: stops the walk up from the range start; `definingForContent`: `defines_content` of the slice's
+    left nodes) spread over the block types instead of `defining` — the aimed schemas of the replace_range tie
+    (harness/rangeplan.py: tie_replace_range)"""
+    out = []
+    n = _nodes(list_schema)
+    n["blockquote"] = {"content": "block+", "group": "block", "definingAsContext": True}
+    n["heading"] = {**{k: v for k, v in n["heading"].items() if k != "defining"}, "definingForContent": True}
+    n["list_item"] = {"content": "paragraph block*"}
+    n["iso"] = {"group": "block", "content": "block+", "isolating": True}
+    out.append(SchemaInfo(Schema({"nodes": n, "marks": _marks(list_schema)}), "ctx-flags-a"))
+    n = _nodes(list_schema)
+    n["blockquote"] = {"content": "block+", "group": "block", "definingForContent": True}
+    n["heading"] = {**{k: v for k, v in n["heading"].items() if k != "defining"}, "definingAsContext": True}
+    n["list_item"] = {"content": "paragraph block*", "definingForContent": True}
+    n["bullet_list"] = {**n["bullet_list"], "definingAsContext": True}
+    n["code_block"] = {k: v for k, v in n["code_block"].items() if k != "defining"}
+    out.append(SchemaInfo(Schema({"nodes": n, "marks": _marks(list_schema)}), "ctx-flags-b"))
+    return out
 
 
 # ---------------------------------------------------------------------------------------------
@@ -382,6 +405,118 @@ def compile_tie(spec, compiled=None):
     if dfas is None:
         return None
     return {"op": "compileSchema", "spec": spec_dump(spec), "dfas": dfas}, {"err": kind}, kind
+
+
+def build_outcome(spec):
+    """('ok', Schema) | (kind, message) | ('recursion', '') — what `Schema(spec)` does, *all* of it: the kinds of
+    `BuildErr` of lean/PM/SchemaBuild.lean.  The table refusals as in `compile_outcome`; the content-expression parser's
+    refusals by exception class and message: `content:syntax|unknownName|mixed` (SyntaxError of `stream.err`),
+    `content:noToken` (TypeError: `re.match` on the end of the tokens), `content:noNumber` (AssertionError of `parse_num`),
+    `content:badInt` (ValueError of `int()`); `deadEnd` (SyntaxError of `check_for_dead_ends`).  A RecursionError is a
+    resource limit of the interpreter, not a verdict."""
+    try:
+        return "ok", Schema(copy.deepcopy(spec))
+    except RecursionError:
+        return "recursion", ""
+    except ValueError as e:
+        m = str(e)
+        if m.startswith("Schema is missing its top node type"):
+            return "missingTop", m
+        if m.startswith("every schema needs a 'text' type"):
+            return "missingText", m
+        if m.startswith("the text node type should not have attributes"):
+            return "textAttrs", m
+        if m.endswith("can not be both a node and a mark"):
+            return "nameClash", m
+        if m.startswith("invalid literal for int()"):
+            return "content:badInt", m
+        return "other:ValueError", m
+    except SyntaxError as e:
+        m = str(e)
+        if m.startswith("unknow mark type"):
+            return "unknownMark", m
+        if "(in content expression)" not in m:
+            return "other:SyntaxError", m
+        if m.startswith("Only non-generatable nodes"):
+            return "deadEnd", m
+        if m.startswith("No node type or group"):
+            return "content:unknownName", m
+        if m.startswith("Mixing inline and block content"):
+            return "content:mixed", m
+        return "content:syntax", m
+    except TypeError as e:
+        m = str(e)
+        return ("content:noToken" if m.startswith("expected string or bytes-like object") else "other:TypeError"), m
+    except AssertionError as e:
+        return "content:noNumber", str(e)
+    except Exception as e:  # noqa: BLE001
+        return "other:" + type(e).__name__, str(e)
+
+
+def build_tie(spec, compiled=None):
+    """(request, expected answer, kind) for `buildSchema` (lean/PM/SchemaBuild.lean), the model of the whole of
+    `Schema(spec)`: the full dump of the real object (`SchemaInfo.dump()`, automata numbered breadth-first), or the kind of
+    refusal.  None when the real constructor hit the interpreter's recursion limit."""
+    from .codec import spec_dump
+    if compiled is not None:
+        kind, got = "ok", compiled
+    else:
+        kind, got = build_outcome(spec)
+    if kind == "recursion":
+        return None
+    req = {"op": "buildSchema", "spec": spec_dump(spec)}
+    if kind == "ok":
+        return req, SchemaInfo(got, "compiled").dump(), kind
+    return req, {"err": kind}, kind
+
+
+MALFORMED_CONTENT = ["(%a", "%a)", "%a{2", "%a{,2}", "%a{2,", "%a |", "| %a", "%a %b |", "()", "(", "%a++{", "%a{x}", "%a{1a}", "%a{1_0}",
+                     "%a{1__0}", "%a{_1}", "%a{1_}", "%a{01}", "%a{2,x}", "%a{2,3", "%a{2 3}", "%a,%b", "%a;", "%a{2,1}", "%a{0}",
+                     "nosuch", "nosuch+", "(%a | nosuch)", "%a text", "text %a", "(%a | text)*", "%a{", "%a{}", "%a{,}", "%a{2,}",
+                     "%a\x1c%b", "%a\u00a0%b", "\x1f", "%a\u200b", "%a | | %b", "%a ( )", "(%a))", "((%a)", "%a?*+", "%a{1}{2}",
+                     "%a{1,2}{0,}", "%a %a{3,}", "(%a %b)+ %a?", "%a*%b*", "1%a", "%a{1 ,2}", "%a{1, 2}", "%a { 2 }", "%a{2}}", "+", "%a|%b",
+                     "%a(%b)", "(%a)(%b)"]
+
+
+def malform_content(rng, spec):
+    """a variant of a spec with one or two content expressions replaced by expressions around the corners of the content
+    parser (unclosed groups / ranges, bad numbers, unknown names, inline/block mixing, stray operators, odd white space),
+    at random positions of the node loop — so that which refusal comes first is exercised.  Returns (spec, labels)."""
+    spec = {"nodes": {k: dict(v) for k, v in spec["nodes"].items()},
+            "marks": {k: dict(v) for k, v in (spec.get("marks") or {}).items()},
+            **({"topNode": spec["topNode"]} if "topNode" in spec else {})}
+    nodes = spec["nodes"]
+    nnames = [n for n in nodes if n != "text"]
+    blocks = [n for n in nnames if not nodes[n].get("inline")] or nnames or ["text"]
+    labels = []
+    for _ in range(rng.randint(1, 2)):
+        if not nnames:
+            break
+        t = rng.choice(nnames)
+        e = rng.choice(MALFORMED_CONTENT).replace("%a", rng.choice(blocks)).replace("%b", rng.choice(blocks))
+        nodes[t]["content"] = e
+        labels.append("content")
+    if rng.random() < 0.25 and nnames:
+        # a refusal of the table compiler at another position of the loop
+        t = rng.choice(nnames)
+        if rng.random() < 0.5:
+            nodes[t]["marks"] = "nosuchmark"
+            labels.append("unknown-marks")
+        else:
+            spec["marks"][t] = {}
+            labels.append("clash")
+    if rng.random() < 0.15 and spec["marks"]:
+        spec["marks"][rng.choice(list(spec["marks"]))]["excludes"] = "nosuchmark"
+        labels.append("unknown-excl")
+    if rng.random() < 0.1:
+        # non-generatable type in a required position
+        t = rng.choice(nnames)
+        u = rng.choice(blocks)
+        nodes[u].setdefault("attrs", {})
+        nodes[u]["attrs"] = dict(nodes[u]["attrs"] or {}, req={})
+        nodes[t]["content"] = rng.choice(["%s", "%s+", "%s %s*", "(%s | text)+" if nodes[u].get("inline") else "%s{2,}"]).replace("%s", u)
+        labels.append("dead-end")
+    return spec, labels
 
 
 def mutate_spec(rng, spec):
